@@ -1,8 +1,6 @@
 package genql
 
 import (
-	"math"
-
 	verif "github.com/vedadiyan/genql/zz_verif"
 )
 
@@ -57,37 +55,27 @@ func refSum(rows []Map, col string) any {
 }
 
 func refMin(rows []Map, col string) any {
-	m := math.MaxFloat64
-	all := true
+	var m any
 	for _, r := range rows {
 		if r[col] == nil {
 			continue
 		}
-		if x := f64of(r[col]); x < m {
+		if x := f64of(r[col]); m == nil || x < f64of(m) {
 			m = x
 		}
-		all = false
-	}
-	if all {
-		return nil
 	}
 	return m
 }
 
 func refMax(rows []Map, col string) any {
-	m := -math.MaxFloat64
-	all := true
+	var m any
 	for _, r := range rows {
 		if r[col] == nil {
 			continue
 		}
-		if x := f64of(r[col]); x > m {
+		if x := f64of(r[col]); m == nil || x > f64of(m) {
 			m = x
 		}
-		all = false
-	}
-	if all {
-		return nil
 	}
 	return m
 }
@@ -146,7 +134,7 @@ func eqAnyOrder(got []any, want []any) bool {
 // optional WHERE and HAVING; groups in order of first appearance.
 func H_C03_group1() {
 	n := verif.Choose("rows", maxRows(3, 4)+1)
-	form := verif.Choose("form", 5)
+	form := verif.Choose("form", 6)
 	verif.Opt("maporder", 3)
 	// column names are case-sensitive keys of the rows: lower-case and mixed-case spellings
 	kc, vc := "k", "v"
@@ -157,6 +145,9 @@ func H_C03_group1() {
 	c := verif.F64("c")
 	var sql string
 	switch form {
+	case 5:
+		// aggregates whose argument is the grouping column itself
+		sql = "SELECT " + kc + ", SUM(" + kc + ") AS s, COUNT(" + kc + ") AS c, MAX(" + kc + ") AS mx FROM t GROUP BY " + kc + " HAVING COUNT(" + kc + ") > 0"
 	case 3:
 		// the member rows of each group, in source order
 		sql = "SELECT " + kc + ", * FROM t GROUP BY " + kc
@@ -200,6 +191,10 @@ func H_C03_group1() {
 		}
 		if form == 4 {
 			want = append(want, Map{kc: g.key[0], "c": len(g.members)})
+			continue
+		}
+		if form == 5 {
+			want = append(want, Map{kc: g.key[0], "s": refSum(g.members, kc), "c": len(g.members), "mx": g.key[0]})
 			continue
 		}
 		row := Map{kc: g.key[0], "c": len(g.members), "s": refSum(g.members, vc)}
